@@ -547,7 +547,7 @@ func (w *World) Sleep(d time.Duration) {
 
 // Shutdown closes the server and every simulated socket so that all goroutines can exit.
 func (w *World) Shutdown() {
-	if w.closed {
+	if w.closed || w.Rec.Poisoned() {
 		return
 	}
 	w.closed = true
